@@ -682,6 +682,57 @@ func verifControlGatherGood(out io.Writer, m modeling.Mesh) error {
 	return Write(out, Binary{Triangles: recs})
 }
 
+// ---- facet normal on every path: must be reported (flat-shaded shortcut hands the corner normal over as is)
+func verifControlNormBad(out io.Writer, m modeling.Mesh) error {
+	recs := make([]Triangle, m.PrimitiveCount())
+	withNormals := m.HasFloat3Attribute(modeling.NormalAttribute)
+	for k := range recs {
+		t := m.Tri(k)
+		recs[k].Vertex1 = verifControlToVec(t.P1Vec3Attr(modeling.PositionAttribute))
+		recs[k].Vertex2 = verifControlToVec(t.P2Vec3Attr(modeling.PositionAttribute))
+		recs[k].Vertex3 = verifControlToVec(t.P3Vec3Attr(modeling.PositionAttribute))
+		if withNormals {
+			a, b, c := t.P1Vec3Attr(modeling.NormalAttribute), t.P2Vec3Attr(modeling.NormalAttribute), t.P3Vec3Attr(modeling.NormalAttribute)
+			facet := a
+			if a != b || b != c {
+				facet = a.Add(b).Add(c).DivByConstant(3).Normalized()
+			}
+			recs[k].Normal = verifControlToVec(facet)
+		}
+	}
+	return Write(out, Binary{Triangles: recs})
+}
+
+// ---- facet normal on every path: accepted idioms (helper, normalisation by hand, explicit zero for a degenerate sum)
+func verifControlUnit(v vector3.Float64) vector3.Float64 {
+	l := v.Length()
+	if l == 0 {
+		return vector3.Zero[float64]()
+	}
+	return vector3.New(v.X()/l, v.Y()/l, v.Z()/l)
+}
+
+func verifControlFacet(t modeling.Tri) vector3.Float64 {
+	sum := t.P1Vec3Attr(modeling.NormalAttribute).Add(t.P2Vec3Attr(modeling.NormalAttribute))
+	sum = sum.Add(t.P3Vec3Attr(modeling.NormalAttribute))
+	return verifControlUnit(sum.Scale(1. / 3.))
+}
+
+func verifControlNormGood(out io.Writer, m modeling.Mesh) error {
+	recs := make([]Triangle, m.PrimitiveCount())
+	withNormals := m.HasFloat3Attribute(modeling.NormalAttribute)
+	for k := range recs {
+		t := m.Tri(k)
+		recs[k].Vertex1 = verifControlToVec(t.P1Vec3Attr(modeling.PositionAttribute))
+		recs[k].Vertex2 = verifControlToVec(t.P2Vec3Attr(modeling.PositionAttribute))
+		recs[k].Vertex3 = verifControlToVec(t.P3Vec3Attr(modeling.PositionAttribute))
+		if withNormals {
+			recs[k].Normal = verifControlToVec(verifControlFacet(t))
+		}
+	}
+	return Write(out, Binary{Triangles: recs})
+}
+
 // ---- scatter: must be reported (start = 3*i+1)
 func verifControlScatterBad(in io.Reader) (*modeling.Mesh, error) {
 	bin, err := Read(in)
@@ -792,6 +843,22 @@ func runControls(a *anchors) {
 				return false
 			}
 			writeMeshBytes(a, r, f, write)
+			gather(a, r, f, write)
+			return true
+		}},
+		{Rule: "NRM-PATH", Label: "control:normpath-bad", Want: ob.Violation, Run: func(r *rep) bool {
+			f := get("verifControlNormBad")
+			if f == nil || write == nil {
+				return false
+			}
+			gather(a, r, f, write)
+			return true
+		}},
+		{Rule: "NRM-PATH", Label: "control:normpath-good", Want: ob.Holds, Run: func(r *rep) bool {
+			f := get("verifControlNormGood")
+			if f == nil || write == nil {
+				return false
+			}
 			gather(a, r, f, write)
 			return true
 		}},
